@@ -40,9 +40,12 @@ def new_fs():
 
 
 def mkstore(backend):
-    """backend 0 = MemoryStore, 1 = FileStore on a fresh ShimFS. Returns (store, fs or None)."""
+    """backend 0 = MemoryStore, 1 = FileStore on a fresh ShimFS, 2 = MemoryStore().with_indexer() (IndexerStore proxy).
+    Returns (store, fs or None)."""
     if backend == 0:
         return MemoryStore(), None
+    if backend == 2:
+        return MemoryStore().with_indexer(), None
     fs = new_fs()
     return FileStore(ROOT), fs
 
